@@ -61,6 +61,38 @@ def confirm(sid, patch, demo, tests):
     return ok
 
 
+DWT = "/tmp/wt_detect"
+DOUT = "/tmp/detect_out"
+
+
+def detect_scratch(sid, checks):
+    """like detect(), but on a scratch worktree (GBVERIF_REPO) with its own output directory: /repo is not touched."""
+    patch = f"{SEEDED}/{sid}/patch.diff"
+    if not os.path.exists(DWT):
+        print(sh(f"git -C /repo worktree add -q --detach {DWT} HEAD").stderr)
+    sh(f"git -C {DWT} checkout -q --detach $(git -C /repo rev-parse HEAD) && git -C {DWT} checkout -- . && git -C {DWT} clean -fdq")
+    ap = sh(f"git -C {DWT} apply --whitespace=nowarn {patch}")
+    if ap.returncode != 0:
+        print("patch does not apply:", ap.stderr[-300:])
+        return
+    out = {}
+    env = dict(os.environ, GBVERIF_REPO=DWT, GBVERIF_OUT=DOUT)
+    try:
+        for c in checks:
+            t = time.time()
+            shutil.rmtree(DOUT, ignore_errors=True)
+            os.makedirs(DOUT, exist_ok=True)
+            r = subprocess.run(f"cd /verif && ./check {c} --tier quick", shell=True, capture_output=True, text=True, timeout=2400, env=env)
+            viol = [l for l in r.stdout.splitlines() if l.startswith("VIOLATION")]
+            out[c] = {"exit": r.returncode, "violations": len(viol), "first": viol[:1], "wall_s": round(time.time() - t), "machinery": [l for l in r.stderr.splitlines() if "MACHINERY" in l][:1],
+                      "on": "scratch worktree (GBVERIF_REPO)"}
+            print(c, out[c])
+    finally:
+        sh(f"git -C {DWT} checkout -- .")
+        shutil.rmtree(DOUT, ignore_errors=True)
+    json.dump(out, open(f"{SEEDED}/{sid}/detect.json", "w"), indent=1)
+
+
 def detect(sid, checks):
     patch = f"{SEEDED}/{sid}/patch.diff"
     st = sh("git -C /repo status --porcelain --untracked-files=no").stdout.strip()
@@ -128,6 +160,8 @@ def meta(sids):
 if __name__ == "__main__":
     if sys.argv[1] == "meta":
         meta(sys.argv[2:] or sorted(x for x in os.listdir(SEEDED) if os.path.isdir(f"{SEEDED}/{x}")))
+    elif sys.argv[1] == "detect-scratch":
+        detect_scratch(sys.argv[2], sys.argv[3:])
     elif sys.argv[1] == "confirm":
         confirm(sys.argv[2], sys.argv[3], sys.argv[4], sys.argv[5:])
     else:
